@@ -53,23 +53,22 @@ class Tap:
             orig_send(packet)
 
         host.send_hci_packet = send
-        prev = world.loop.on_step
+        # events are logged where the host receives them (Host.on_packet), however the controller schedules the delivery
+        orig_on_packet = host.on_packet
 
-        def on_step(handle):
-            if prev:
-                prev(handle)
-            if world.loop.classify(handle) == ('c2h', i):
-                b = handle._args[0]
-                if b[0] == 0x04:
-                    self.log.append(('evt', b[1], bytes(b)))
-                    if b[1] == 0x0E and len(b) >= 6:
-                        if b[3] > 0 and struct.unpack_from('<H', b, 4)[0] != 0:
-                            self.answered += 1
-                    elif b[1] == 0x0F and len(b) >= 7:
-                        if b[4] > 0:
-                            self.answered += 1
+        def on_packet(packet):
+            b = bytes(packet)
+            if b and b[0] == 0x04 and len(b) >= 2:
+                self.log.append(('evt', b[1], b))
+                if b[1] == 0x0E and len(b) >= 6:
+                    if b[3] > 0 and struct.unpack_from('<H', b, 4)[0] != 0:
+                        self.answered += 1
+                elif b[1] == 0x0F and len(b) >= 7:
+                    if b[4] > 0:
+                        self.answered += 1
+            return orig_on_packet(packet)
 
-        world.loop.on_step = on_step
+        host.on_packet = on_packet
 
     def responses(self, opcode):
         out = []
@@ -696,7 +695,8 @@ def run_proc_case(proc, situation, fault, at):
                 if fault and not injected[0] and msgs[0] == at:
                     inject()
                 msgs[0] += 1
-            prev(handle)
+            if prev:
+                prev(handle)
 
         w.loop.on_step = on_step
         task = w.loop.create_task(host.send_command(cmd))
@@ -840,7 +840,8 @@ def run_cancel_case(script_i, at):
                 else:
                     vt.cancel()
             steps[0] += 1
-            prev(handle)
+            if prev:
+                prev(handle)
 
         w.loop.on_step = on_step
         w.loop.run_quiescent(max_steps=50000)
@@ -938,7 +939,8 @@ def run_noop_case(script_i, kind, count, at, zero_credit=None):
                         b[3 if b[1] == 0x0E else 4] = 0
                         handle._args = (bytes(b),)
                     responses_seen[0] += 1
-            prev(handle)
+            if prev:
+                prev(handle)
 
         w.loop.on_step = on_step
         w.loop.run_quiescent(max_steps=50000)
